@@ -794,5 +794,42 @@ def subSet (td : TD) (sub : Sub) (target : Option Nat) (sh : Shape) : Except Err
   if sub.bs ≠ [] ∧ !hasPrefix sub.bs sh then .error .runtime
   else entryWriteK td sub.bs sub.idx.items 0 { target := target, shape := sh } sh
 
+/-! sub-tensordicts of sub-tensordicts: `inner = td._get_sub_tensordict(idx1)._get_sub_tensordict(idx2)` -/
+
+/-- the write-back of `_SubTensorDict._set_at_str`: the window `source[key][idx]` (selection `R`) has been modified according to
+    `w` and is assigned back, `source[key][idx] = window`. A position of the source takes the content of the LAST window cell
+    that maps to it; a cell that was not written still holds the source element it was read from. Whether the window was a
+    view of the source or a copy plays no role. -/
+def writeThrough (R : TorchSpec.IndexResult) (w : List Nat → Option (List Nat)) : List Nat → Option (List Nat) :=
+  fun p => ((coords R.shape).reverse.find? (fun q => R.src q == p)).bind w
+
+/-- `inner.get(key)`: `outer._get_at_str(key, idx2)` = `source[key][idx1][idx2]` -/
+def subsubGet (td : TD) (o i : Sub) (j : Nat) : Except Err TorchSpec.IndexResult :=
+  match td.leaves[j]? with
+  | none => .error .runtime
+  | some feat => do
+    let R1 ← leafGet (td.bs ++ feat) o.idx
+    let R2 ← TorchSpec.index R1.shape i.idx.items
+    pure { shape := R2.shape, src := fun c => R1.src (R2.src c), view := R1.view && R2.view }
+
+/-- mirrors `inner[idx3] = value` (scalar / tensor of shape `v`) for `inner = td._get_sub_tensordict(idx1)._get_sub_tensordict(idx2)`:
+    `TensorDict.__setitem__` on the inner sub-tensordict (Ellipsis conversion and dim check against ITS batch size), then per key
+    `_SubTensorDict._set_at_str`: read the window through the source chain, `window[idx3] = value`, and write the window back
+    level by level (`outer._set_at_str(key, window, idx2)`, `td._set_at_str(key, window', idx1)`).
+    One write map per leaf of the ROOT. -/
+def subsubSet (td : TD) (idx1 idx2 idx3 : PyIndex) (v : Shape) : Except Err (List (List Nat → Option (List Nat))) := do
+  let o ← subInit td idx1
+  let i ← subInit { td with bs := o.bs } idx2
+  let idx3' ← (match idx3 with
+    | .single .ell => convertEllipsis idx3 i.bs.length
+    | .single _ => .ok idx3
+    | .tuple l => if l.any (· = .ell) then convertEllipsis idx3 i.bs.length else .ok idx3)
+  checkIndexNdim idx3' i.bs.length
+  td.leaves.mapM (fun feat => do
+    let R1 ← leafGet (td.bs ++ feat) o.idx
+    let R2 ← TorchSpec.index R1.shape i.idx.items
+    let w3 ← TorchSpec.setIndex R2.shape idx3'.items v
+    pure (writeThrough R1 (writeThrough R2 w3)))
+
 end Td
 end TdVerif.C03
